@@ -8,3 +8,6 @@ import LyModel.Props.C07
 #print axioms LyModel.Props.C07.implicit_exact
 #print axioms LyModel.Props.C07.autodel_exact
 #print axioms LyModel.Props.C07.np_cont_dflt
+#print axioms LyModel.Props.C07.validate_idempotent_choice
+#print axioms LyModel.Props.C07.validate_idempotent_choice_fails
+#print axioms LyModel.Props.C07.validate_idempotent_choice_F188_fails
